@@ -618,7 +618,6 @@ func runC17(c *Ctx) {
 		c.Undecided("batch split sites", "-", fmt.Sprintf("%d found (expected 3)", nsplit))
 	}
 	runC17Metadata(c)
-	runSIB(c, "R7")
 }
 
 func entryInstrOf(b *ssa.BasicBlock) ssa.Instruction { return b.Instrs[0] }
